@@ -1351,6 +1351,10 @@ impl World for HtmlWorld {
         self.emit(&m, &flip)
     }
 
+    fn shrink_candidates(&self, v: &Value) -> Vec<Value> {
+        let (case, flip) = self.parse(v);
+        case_candidates(&case).iter().map(|c| self.emit(c, &flip)).collect()
+    }
     fn rule(&self) -> String {
         "case = (grammar-generated malformed HTML input, options, pipeline {tokenizer+policy sink | tokenizer+tree builder+model DOM, document or fragment context}, one schedule of chunk cuts / buffer representation / pause actions / collections / truncation) drawn from the case's own PRNG stream; a case is non-trivial when the input is non-empty and the schedule has at least one interior cut or fault event (for C08: always, the option flip is the variation); distinct = distinct hash of (input, schedule, pipeline, options)".into()
     }
